@@ -661,3 +661,21 @@ func TestD34_PreprocessReturnsTypedNil(t *testing.T) {
 		}
 	})
 }
+
+// D35: the default formatter substituted Params in map iteration order; when one parameter's value holds
+// another parameter's placeholder the message differed from run to run
+func TestD35_FormatterParamOrder(t *testing.T) {
+	s := z.String().Min(5, z.Params(map[string]any{"min": "{{unit}}", "unit": "chars"}))
+	seen := map[string]bool{}
+	for i := 0; i < 400; i++ {
+		var d string
+		errs := s.Parse("ab", &d)
+		if len(errs) != 1 {
+			t.Fatalf("issues %v", errs)
+		}
+		seen[errs[0].Message] = true
+	}
+	if len(seen) != 1 {
+		t.Fatalf("the same call produced %d different messages: %v", len(seen), seen)
+	}
+}
